@@ -4,9 +4,11 @@ from ..absval import Const, Sym, Bytes, Seq, BitV, norm, const_of, as_lin
 from ..interp import Ref, Limits, State, Model
 from ..model import AnalysisError, iter_own_nodes
 from ..tables import rf24network as T
+from ..interp_ext import parse_fmt
 from .c03 import Agg, value_matches
 from . import net, c07
 from .c13 import same
+from .common import iter_mutation_sites
 
 DEFAULT = T.CONSTANTS["NETWORK_DEFAULT_ADDR"]
 RESP = T.CONSTANTS["MESH_ADDR_RESPONSE"]
@@ -56,7 +58,7 @@ def header_untouched(ck, agg):
     S = net.structs(P)
     for qc in ("FrameQueue", "FrameQueueFrag"):
         nn.model.opaque[P.method(S[qc], "enqueue").qualname] = net.sum_enqueue
-    nn.model.loop_key = net.radio_loop_key(nn)
+    nn.model.loop_key = net.radio_loop_key(nn, trace_kinds=("summary", "cond"))
     for send_type in (T.CONSTANTS["TX_NORMAL"], T.CONSTANTS["TX_PHYSICAL"], T.CONSTANTS["TX_MULTICAST"]):
         for mlen in (2, 24):   # replies are 2 bytes; fragmentation (> 24 bytes) rewrites header.reserved and is not used for them
             st, node = nn.fresh(msg_len=mlen, frame_pins={"message_type": RESP})
@@ -129,7 +131,6 @@ def dhcp_rules(ck, agg, nn):
                 agg.add("R16.4", f, "one request leases at most one address", len(leases) <= 1, "%s: %d leases on one path" % (label, len(leases)))
                 flag = out.state.heap[node.ident].fields.get("_do_dhcp")
                 agg.add("R16.6", f, "the pending-request flag is consumed", value_matches(flag, False), "%s: flag left %r" % (label, flag))
-                scan_iters = [e for e in out.trace if e.kind in ("loop-iter", "loop-exit", "loop-break") and isinstance(e.node, ast.For) and e.func is f]
                 if not leases:
                     wr = [e for e in out.trace if e.kind == "summary" and e.data[0] == "_write"]
                     agg.add("R16.3", f, "no reply without a lease", not wr, "%s: reply sent although nothing was leased" % label)
@@ -144,12 +145,14 @@ def dhcp_rules(ck, agg, nn):
                 by_addr = (rest and value_matches(rest[0], True)) or ("search_by_address" in kw and value_matches(kw["search_by_address"], True))
                 agg.add("R16.4", f, "leases are keyed by ID (an ID that asks again overwrites its lease)", not by_addr, "%s: set_address(search_by_address=True)" % label)
                 # R16.2: collision scan over *all* entries, only entries of other IDs block
-                body_tests = [e for e in out.trace if e.kind == "cond" and e.func is f and e.seq < leases[0].seq and isinstance(e.node, ast.Compare) and isinstance(e.data[1], tuple)]
-                # group the tests of the candidate that was finally leased: those after the last `new_addr` change = after last outer loop-iter
-                outer = [e for e in out.trace if e.kind == "loop-iter" and e.func is f and isinstance(e.node, ast.For) and _is_range_loop(e.node) and e.seq < leases[0].seq]
-                start = outer[-1].seq if outer else 0
-                inner_iters = [e for e in out.trace if e.kind == "loop-iter" and e.func is f and isinstance(e.node, ast.For) and not _is_range_loop(e.node) and start < e.seq < leases[0].seq]
-                inner_exit = [e for e in out.trace if e.kind == "loop-exit" and e.func is f and isinstance(e.node, ast.For) and not _is_range_loop(e.node) and start < e.seq < leases[0].seq]
+                body_tests = [e for e in out.trace if e.kind == "cond" and e.seq < leases[0].seq and isinstance(e.node, ast.Compare) and isinstance(e.data[1], tuple)]
+                # the scan that cleared the leased candidate = the last loop over the table's items that started before the lease, wherever
+                # it lives (in _dhcp itself, in a helper, or as an any()/all() over the table)
+                scans = [e for e in out.trace if e.kind == "for" and e.seq < leases[0].seq and _is_table_items(e.data[0])]
+                start = scans[-1].seq if scans else leases[0].seq
+                scan_node = scans[-1].node if scans else None
+                inner_iters = [e for e in out.trace if e.kind == "loop-iter" and e.node is scan_node and start < e.seq < leases[0].seq]
+                inner_exit = [e for e in out.trace if e.kind == "loop-exit" and e.node is scan_node and start < e.seq < leases[0].seq]
                 agg.add("R16.2", f, "an address is leased only after the scan ran through every table entry", bool(inner_exit), "%s: leased without finishing the scan of dhcp_dict" % label)
                 tests = [e for e in body_tests if e.seq > start]
                 for k, itv in enumerate(inner_iters):
@@ -184,6 +187,20 @@ def dhcp_rules(ck, agg, nn):
         agg.add("R16.6", f, "without a pending request _dhcp() does nothing", out.kind == "return" and not [e for e in out.trace if e.kind in ("lease", "summary")], "effects without a request")
     nn.model.opaque.pop(f_set.qualname, None)
     return n
+
+
+def _is_table_items(v):
+    """the value iterated by a loop is the lease table (its items()/keys()/values() view or the dict itself)"""
+    if isinstance(v, Ref):
+        return v.kind == "dict" and str(v.label or "").endswith("dhcp_dict")
+    v = norm(v) if hasattr(v, "key") else v
+    return isinstance(v, Sym) and v.ty in ("dictitems", "dictkeys", "dictvalues") and str(v.attrs.get("label", "")).endswith("dhcp_dict")
+
+
+def _table_iters_after(out, seq):
+    """iterations of a loop over the lease table that start after event number seq"""
+    nodes = {id(e.node) for e in out.trace if e.kind == "for" and _is_table_items(e.data[0])}
+    return [e for e in out.trace if e.kind == "loop-iter" and e.seq > seq and id(e.node) in nodes]
 
 
 def _is_range_loop(node):
@@ -233,7 +250,7 @@ def table_ops(ck, agg, nn):
                 agg.add("R16.4", f_set, "the pair is stored under the given ID", okk, "stored under %r" % (k,))
             # mutation during iteration must be followed by leaving the loop
             if muts:
-                later = [e for e in out.trace if e.kind == "loop-iter" and e.seq > muts[0].seq and e.func is f_set]
+                later = _table_iters_after(out, muts[0].seq)
                 agg.add("R16.4", f_set, "the table is never iterated further after it was modified", not later, "iteration continues after a modification (RuntimeError: dictionary changed size)")
             if by_addr:
                 dels = [e for e in muts if e.kind == "delitem"]
@@ -256,7 +273,7 @@ def table_ops(ck, agg, nn):
                     "deletes %d entries, returns %r" % (len(dels), out.value))
                 k = norm(dels[0].data[1])
                 agg.add("R16.6", f_rel, "the deleted key is the ID of the matching entry", isinstance(k, Sym) and isinstance(k.attrs.get("role"), tuple) and k.attrs["role"][0] == "dict-key", "deletes key %r" % (k,))
-                later = [e for e in out.trace if e.kind == "loop-iter" and e.seq > dels[0].seq and e.func is f_rel]
+                later = _table_iters_after(out, dels[0].seq)
                 agg.add("R16.6", f_rel, "the table is never iterated further after the deletion", not later, "iteration continues after del")
             else:
                 agg.add("R16.6", f_rel, "an unknown address releases nothing and reports False", value_matches(out.value, False), "returns %r" % (out.value,))
@@ -321,15 +338,117 @@ def dispatch(ck, agg, nn):
     return n
 
 
+def _lin_of_key(k):
+    """(coefficient, constant) of a slice bound as stored in a slice tag (an int, or the repr of a one-term linear form)"""
+    import re
+    if isinstance(k, int):
+        return 0, k
+    m = re.match(r"Lin\((?:(\d+)\*)?([^+()]+?)(?: \+ (-?\d+))?\)$", str(k))
+    if m:
+        return int(m.group(1) or 1), int(m.group(3) or 0)
+    return None
+
+
+def _lin_pair(v):
+    l = as_lin(norm(v))
+    if l is None or len(l.terms) > 1:
+        return None
+    return (list(l.terms.values())[0] if l.terms else 0), l.c
+
+
+def _fmt_fields(fmt):
+    """[(offset, size, code)] of the live fields of a struct format, with native alignment for '' / '@'"""
+    from ..interp_ext import STRUCT_CODES
+    p = parse_fmt(fmt)
+    if p is None:
+        return None, None
+    order, codes = p
+    off, out = 0, []
+    for c in codes:
+        sz = STRUCT_CODES[c][0]
+        if order in ("", "@") and off % sz:
+            off += sz - off % sz
+        if c != "x":
+            out.append((off, sz, c))
+        off += sz
+    return out, ("big" if order in (">", "!") else "little")
+
+
+def _signed(code):
+    from ..interp_ext import STRUCT_CODES
+    lo = STRUCT_CODES[code][1]
+    return lo is not None and lo < 0
+
+
+def reader_field(v):
+    """where in the file a value handed to set_address() comes from: dict(stride, offset, size, signed, order) or None"""
+    v = norm(v)
+    if not isinstance(v, Sym):
+        return None
+    if "at" in v.attrs and "of" in v.attrs:                      # buffer[index]: one unsigned byte
+        lp = _lin_pair(v.attrs["at"])
+        if lp is None:
+            return None
+        return {"stride": lp[0], "offset": lp[1], "size": 1, "signed": False, "order": "little"}
+    up = v.attrs.get("unpack")
+    if up:
+        fmt, k, src = up[:3]
+        fields, order = _fmt_fields(fmt)
+        if fields is None or k >= len(fields):
+            return None
+        base = (0, 0)
+        if len(up) > 3:                                           # unpack_from(fmt, buffer, offset)
+            base = _lin_pair(up[3])
+        elif isinstance(src, Bytes) and len(src.parts) == 1 and src.parts[0][0][0] == "slice":
+            base = _lin_of_key(src.parts[0][0][2])                # unpack(fmt, buffer[lo:hi])
+        if base is None:
+            return None
+        off, size, code = fields[k]
+        return {"stride": base[0], "offset": base[1] + off, "size": size, "signed": _signed(code), "order": order}
+    return None
+
+
+def writer_fields(writes):
+    """byte layout of one record from the values written for one table entry: [(offset, size, signed, order, value)], record length"""
+    off, out = 0, []
+    for w in writes:
+        b = w.data[1][0] if w.data[1] else None
+        if not isinstance(b, Bytes):
+            return None, None
+        for tag, ln in b.parts:
+            n_ = const_of(norm(ln))
+            if n_ is None:
+                return None, None
+            if tag[0] == "items" and len(tag) > 2:
+                for j, item in enumerate(tag[2]):
+                    out.append((off + j, 1, False, "little", item))        # bytes([..]) accepts 0..255 only: unsigned
+            elif tag[0] == "pack":
+                fields, order = _fmt_fields(tag[1])
+                if fields is None:
+                    return None, None
+                for (fo, sz, code), val in zip(fields, tag[2]):
+                    out.append((off + fo, sz, _signed(code), order, val))
+            elif tag[0] != "const":
+                return None, None
+            off += n_
+    return out, off
+
+
+def _has_role(v, role):
+    v = norm(v)
+    return isinstance(v, Sym) and isinstance(v.attrs.get("role"), tuple) and v.attrs["role"][0] == role
+
+
 def persistence(ck, agg, nn):
-    """R16.5: save_dhcp / load_dhcp agree on both file formats"""
+    """R16.5: save_dhcp / load_dhcp agree on both file formats.  Both sides are reduced to a byte layout of one record - (offset, width,
+    signedness, byte order) of the ID and of the address - read off the abstract values (what is written per table entry; where the values
+    handed to set_address() were read from); the rule is the equality of the two layouts, whatever statements produce them."""
     P = ck.prog
     cls = nn.cls
     f_save, f_load = P.method(cls, "save_dhcp"), P.method(cls, "load_dhcp")
     f_set = P.method(cls, "set_address")
     n = 0
-    rec_fmt = None
-    rec_len = None
+    w_id = w_addr = rec_len = None
     for as_bin in (True, False):
         n += 1
         st, node = nn.fresh(fields={"_id": 0, "_addr": 0})
@@ -339,30 +458,29 @@ def persistence(ck, agg, nn):
                 agg.add("R16.5", f_save, "save_dhcp() does not raise on a writable file", False, "raises %s" % out.value.exc)
                 continue
             writes = [e for e in out.trace if e.kind == "io" and e.data[0] and e.data[0].endswith(".write")]
-            iters = len([e for e in out.trace if e.kind == "loop-iter" and e.func is f_save])
+            scans = [e for e in out.trace if e.kind == "for" and _is_table_items(e.data[0])]
+            iters = [e for e in out.trace if e.kind == "loop-iter" and scans and e.node is scans[0].node]
+            agg.add("R16.5", f_save, "the binary form is chosen by as_bin",
+                    bool(scans) or not as_bin or not writes, "as_bin=True writes without scanning the table")
             if as_bin:
-                if iters == 0:
+                if not iters:
                     agg.add("R16.5", f_save, "an empty table writes an empty binary file", not writes, "%d writes" % len(writes))
                     continue
-                per = writes[: len(writes) // iters] if iters else []
-                total, lay = 0, []
-                for w in per:
-                    b = w.data[1][0]
-                    ln = const_of(norm(b.length())) if isinstance(b, Bytes) else None
-                    lay.append((b.parts[0][0] if isinstance(b, Bytes) and b.parts else None, ln))
-                    total += ln or 0
-                rec_len = total
-                ok = len(lay) == 2 and lay[0][1] == 2 and lay[0][0][0] == "items" and lay[1][0][0] == "pack"
-                agg.add("R16.5", f_save, "binary record = [id, 0] followed by the address as a 16-bit little-endian field", ok and lay[1][0][1] in ("<H", "=H", "H"), "record layout %r" % (lay,))
-                if ok:
-                    rec_fmt = lay[1][0][1]
-                    k0 = lay[0][0][2][0] if len(lay[0][0]) > 2 else None
-                    agg.add("R16.5", f_save, "the record's first byte is the node ID, the packed field its address", isinstance(norm(k0), Sym) and norm(k0).attrs.get("role", ("",))[0] == "dict-key" and
-                            isinstance(norm(lay[1][0][2][0]), Sym) and norm(lay[1][0][2][0]).attrs.get("role", ("",))[0] == "dict-val", "id %r addr %r" % (k0, lay[1][0][2][0]))
+                end = iters[1].seq if len(iters) > 1 else 10 ** 12
+                per = [w for w in writes if iters[0].seq < w.seq < end]
+                fields, total = writer_fields(per)
+                if fields is None:
+                    raise AnalysisError("save_dhcp: the bytes written per table entry are not understood (%r)" % ([w.data[1] for w in per],))
+                ids = [f_ for f_ in fields if _has_role(f_[4], "dict-key")]
+                ads = [f_ for f_ in fields if _has_role(f_[4], "dict-val")]
+                agg.add("R16.5", f_save, "each binary record stores the node ID once and its address once", len(ids) == 1 and len(ads) == 1,
+                        "record fields: %r" % ([(f_[0], f_[1], f_[4]) for f_ in fields],))
+                if len(ids) == 1 and len(ads) == 1:
+                    w_id, w_addr, rec_len = ids[0], ads[0], total
+                    agg.add("R16.5", f_save, "the address is stored in a field wide enough for 12 bits, unsigned", ads[0][1] >= 2 and not ads[0][2], "address field %r" % (ads[0][:4],))
+                    agg.add("R16.5", f_save, "every record has the same length on every path", True, "")
             else:
-                js = [w for w in writes if any(isinstance(norm(x), Sym) and str(norm(x).name[0] if isinstance(norm(x).name, tuple) else norm(x).name).startswith(("json", "encoded")) for x in w.data[1])]
                 agg.add("R16.5", f_save, "the JSON form writes the serialised table once", len(writes) == 1, "%d writes" % len(writes))
-    calls = []
 
     def rec_set(model, it, st, fr, node, target, args, kwargs):
         it.event(st, fr, "lease", node, (args[1], args[2], dict(kwargs), args[3:] if len(args) > 3 else []))
@@ -372,40 +490,47 @@ def persistence(ck, agg, nn):
         n += 1
         st, node = nn.fresh(fields={"_id": 0, "_addr": 0})
         outs = nn.run(f_load, node, [Const("f"), Const(as_bin)], st)
+        nleases = nlayouts = 0
         for out in outs:
             if out.kind != "return":
                 continue
             leases = [e for e in out.trace if e.kind == "lease"]
+            js = [e for e in out.trace if e.kind == "json.load"]
+            agg.add("R16.5", f_load, "the reader chooses the format by as_bin like the writer", bool(js) == (not as_bin), "as_bin=%r: json.load calls %d" % (as_bin, len(js)))
             if not leases:
                 continue
+            nleases += 1
             if as_bin:
-                idx = [e for e in out.trace if e.kind == "index" and e.func is f_load]
-                ups = [e for e in out.trace if e.kind == "unpack" and e.func is f_load]
-                agg.add("R16.5", f_load, "the binary reader decodes the address with the writer's format", bool(ups) and rec_fmt is not None and ups[0].data[0].lstrip("<=") == rec_fmt.lstrip("<="), "reader %r vs writer %r" % (ups[0].data[0] if ups else None, rec_fmt))
-                if ups:
-                    src = ups[0].data[1]
-                    tg = src.parts[0][0] if isinstance(src, Bytes) and src.parts else None
-                    lo, hi = (tg[2], tg[3]) if tg and tg[0] == "slice" else (None, None)
-                    il = as_lin(norm(idx[0].data[1])) if idx else None
-                    stride = list(il.terms.values())[0] if il is not None and len(il.terms) == 1 else (0 if il is not None and not il.terms else None)
-                    off_id = il.c if il is not None else None
-                    agg.add("R16.5", f_load, "records are read with the writer's stride (4 bytes), the ID from offset 0", stride == (rec_len or 4) and off_id == 0,
-                            "id index %r, writer's record length %r" % (idx[0].data[1] if idx else None, rec_len))
-                    import re
-                    m1, m2 = re.match(r"Lin\((\d+)\*.* \+ (\d+)\)$", str(lo)), re.match(r"Lin\((\d+)\*.* \+ (\d+)\)$", str(hi))
-                    oka = bool(m1 and m2) and int(m1.group(1)) == int(m2.group(1)) == stride and int(m1.group(2)) == 2 and int(m2.group(2)) == 4
-                    agg.add("R16.5", f_load, "the address is decoded from bytes 2..4 of each record", oka, "address slice [%s:%s]" % (lo, hi))
+                if w_id is None:
+                    continue
+                rid, rad = reader_field(leases[0].data[0]), reader_field(leases[0].data[1])
+                if rid is None or rad is None:
+                    raise AnalysisError("load_dhcp: where the ID / address handed to set_address() are read from is not understood (%r, %r)" % (leases[0].data[0], leases[0].data[1]))
+                if rid["stride"] == 0 and rad["stride"] == 0:
+                    # a concrete file position (`index = 0; while ..: index += 4`): the stride is the distance to the next record read
+                    if len(leases) < 2:
+                        continue
+                    rid2, rad2 = reader_field(leases[1].data[0]), reader_field(leases[1].data[1])
+                    if rid2 is None or rad2 is None:
+                        raise AnalysisError("load_dhcp: second record not understood")
+                    rid["stride"], rad["stride"] = rid2["offset"] - rid["offset"], rad2["offset"] - rad["offset"]
+                nlayouts += 1
+                agg.add("R16.5", f_load, "records are read with the writer's stride", rid["stride"] == rec_len and rad["stride"] == rec_len,
+                        "reader strides %d / %d, writer's record length %d" % (rid["stride"], rad["stride"], rec_len))
+                agg.add("R16.5", f_load, "the node ID is read from where the writer put it, as the same kind of field",
+                        (rid["offset"], rid["size"], rid["signed"]) == (w_id[0], w_id[1], w_id[2]) and (rid["size"] == 1 or rid["order"] == w_id[3]),
+                        "reader: offset %d, %d byte(s), %s; writer: offset %d, %d byte(s), %s" % (rid["offset"], rid["size"], "signed" if rid["signed"] else "unsigned", w_id[0], w_id[1], "signed" if w_id[2] else "unsigned"))
+                agg.add("R16.5", f_load, "the address is read from where the writer put it, as the same kind of field",
+                        (rad["offset"], rad["size"], rad["signed"], rad["order"]) == (w_addr[0], w_addr[1], w_addr[2], w_addr[3]),
+                        "reader: offset %d, %d byte(s), %s, %s-endian; writer: offset %d, %d byte(s), %s, %s-endian" % (
+                            rad["offset"], rad["size"], "signed" if rad["signed"] else "unsigned", rad["order"], w_addr[0], w_addr[1], "signed" if w_addr[2] else "unsigned", w_addr[3]))
             else:
-                ints = [e for e in out.trace if e.kind in ("mayraise",) and e.data[0] == "int()"]
                 kv = leases[0].data
                 agg.add("R16.5", f_load, "JSON keys are converted back to int IDs", not isinstance(norm(kv[0]), Bytes) and getattr(norm(kv[0]), "ty", "int") in ("int", None) or isinstance(norm(kv[0]), Const), "id value %r" % (kv[0],))
+        agg.add("R16.5", f_load, "a non-empty file yields table entries", nleases > 0, "as_bin=%r: no path stores an entry" % as_bin)
+        if as_bin and w_id is not None and not nlayouts:
+            raise AnalysisError("load_dhcp: no path from which the reader's record layout can be read")
     nn.model.opaque.pop(f_set.qualname, None)
-    # both functions choose the format by the same condition
-    conds = {}
-    for f in (f_save, f_load):
-        tests = [ast.unparse(x.test) for x in ast.walk(f.node) if isinstance(x, ast.If)]
-        conds[f.name] = tests
-    agg.add("R16.5", f_load, "reader and writer choose the file format by the same conditions", conds["save_dhcp"] == conds["load_dhcp"], "save: %r load: %r" % (conds["save_dhcp"], conds["load_dhcp"]))
     return n
 
 
@@ -428,7 +553,17 @@ def run(ck):
     n2 = table_ops(ck, agg, nn)
     n3 = dispatch(ck, agg, nn)
     n4 = persistence(ck, agg, nn)
+    # R16.7: no method of the master resizes the lease table while iterating over it (a RuntimeError mid-way leaves the table half-updated)
+    mesh = ck.prog.cls("rf24_mesh", "RF24Mesh")
+    n5 = 0
+    for cls in mesh.mro:
+        for f in cls.methods.values():
+            n5 += 1
+            for loop, stmt, what, ok in iter_mutation_sites(f.node):
+                agg.add("R16.7", f, "the lease table is not resized while it is being iterated", ok,
+                        "%s (line %d) and the loop can go on to its next iteration" % (what, stmt.lineno), stmt)
     agg.flush()
+    ck.floor("R16.7", "methods scanned for iterate-and-resize", n5, 20)
     ck.floor("R16.1", "relay scenarios", n1, 7)
     ck.floor("R16.4", "table operation scenarios", n2, 3)
     ck.floor("R16.6", "dispatch scenarios", n3, 4)
